@@ -278,6 +278,12 @@ class RangeDomain:
                 if lo <= vl and vh <= hi:
                     return Adt("core::result::Result", "Ok", [v if isinstance(v, (int, Rng)) else self.mk(vl, vh)])
                 return TOP
+        if n in ("as_ref", "as_mut", "as_slice", "as_mut_slice") and len(a) == 1:
+            # the limb slice of a fixed-width integer: its length is part of the type (U256 / BigInt<4> → 4 limbs)
+            mm = re.search(r"BigInt<(\d+)>", fk.i)
+            nl = int(mm.group(1)) if mm else (4 if "U256" in fk.i else 8 if "U512" in fk.i else None)
+            if nl and ("[u64]" in fk.i or mm or "u256" in d or "u512" in d):
+                return Tup([Rng(0, 2 ** 64 - 1)] * nl)
         if n in ("enumerate", "take", "skip", "zip", "map", "rev") and a:
             # literal ranges used directly as iterators
             a = [Iter(range(x.fields[0], x.fields[1])) if isinstance(x, Adt) and x.name.endswith("ops::Range") and len(x.fields) == 2 and all(isinstance(y, int) for y in x.fields) else x for x in a]
@@ -406,18 +412,10 @@ def profile_sites(Fd, Fr):
     return out
 
 
-def rule_profile_diff(prop, ctx_repo_dev, repo_rel, ls_factory):
-    repo = ctx_repo_dev
-    F = repo.F
-    Frel = repo_rel.F
-    R = Rule("R-PROFILE-DIFF", "every assertion that exists only in the dev-profile MIR (integer-overflow checks, debug_assert!) is discharged by interval analysis, or fails for an "
-             "exhibited abstract input (violation), or is a listed numerical self-check", floor=25, exhaustive=True)
-    sites = profile_sites(F, Frel)
-    asserts = [s for s in sites if s[0] == "assert"]
-    dbg = [s for s in sites if s[0] == "debug_assert"]
-    R.note("dev-only sites: %d overflow-class assertions in %d functions, %d debug_assert! panics" % (len(asserts), len({s[1] for s in asserts}), len(dbg)))
-    # ---- overflow assertions: abstract execution of each function with ⊤ inputs. A function that cannot be discharged on its
-    # own and cannot be called from outside the crate is analysed again in the context of each of its (transitive) callers.
+def analyse_asserts(F, asserts, live=None):
+    """Interval abstract execution of every function holding one of the given assertion sites, with ⊤ inputs. A function that
+    cannot be discharged on its own and cannot be called from outside the crate is analysed again inside each of its
+    (transitive) callers, iterated to a fixed point. → (contexts(p, bb) -> {root: status}, callers, deferred, #roots, own_root)"""
     dom = RangeDomain(F)
     fns = sorted({s[1] for s in asserts})
     done = set()
@@ -435,16 +433,16 @@ def rule_profile_diff(prop, ctx_repo_dev, repo_rel, ls_factory):
         if r not in done:
             done.add(r)
             run_top(F, dom, F.bodies[r], lambda d: d in int_fns)
-
-    def standalone_ok(p, bb):
-        st = (dom.sites.get((p, bb)) or {}).get(own_root(p))
-        return st is not None and not st["fails"] and not st["unknown"]
     callers = {}
     for b in F.fn_bodies():
+        if live is not None and own_root(b.rec["path"]) not in live:
+            continue          # a caller that the entry points cannot reach contributes no context
         for _, t in b.calls():
             d = (t.get("fn") or {}).get("res_def")
             if d in F.bodies:
                 callers.setdefault(d, set()).add(own_root(b.rec["path"]))
+                if b.rec["kind"] == "Closure":
+                    callers[d].add(b.rec["path"])        # the closure body is a context of its own (captured values unknown)
     deferred = set()
 
     def contexts(p, bb):
@@ -454,10 +452,16 @@ def rule_profile_diff(prop, ctx_repo_dev, repo_rel, ls_factory):
         r = own_root(p)
         if r not in deferred:
             return {r: byroot[r]} if r in byroot else {}
-        return {root: st for root, st in byroot.items() if root not in deferred}
+        out = {root: st for root, st in byroot.items() if root not in deferred and (live is None or own_root(root) in live)}
+        # a closure analysed on its own (captured values unknown) adds nothing when the function that builds and runs it
+        # reached the site with the captured values known
+        for root in list(out):
+            if "::{closure" in root and own_root(root) in out and own_root(root) != root:
+                del out[root]
+        return out
 
     def can_defer(r):
-        return not F.is_public_api(r) and bool(callers.get(r)) and F.bodies[r].rec["kind"] != "Closure"
+        return not F.is_exported(r) and bool(callers.get(r)) and F.bodies[r].rec["kind"] != "Closure"
     roots = set()
     for _round in range(8):
         changed = False
@@ -484,8 +488,251 @@ def rule_profile_diff(prop, ctx_repo_dev, repo_rel, ls_factory):
             for key, byroot in dom.sites.items():
                 byroot.pop(c, None)
             run_top(F, dom, F.bodies[c], lambda d: d in deferred or d in int_fns)
+    return contexts, callers, deferred, len(roots), own_root
+
+
+PANIC_DEFS = ("core::panicking", "core::option::unwrap_failed", "core::option::expect_failed", "core::result::unwrap_failed", "core::slice::index::slice_", "core::panic",
+              "std::rt::begin_panic", "core::str::slice_error_fail")
+
+
+def folded_reachable(b):
+    """blocks reachable from the entry when branches on literal conditions (`if cfg!(debug_assertions)`, the residue of
+    debug_assert! in an unoptimised release MIR) are followed on their taken side only"""
+    consts = {}
+    assigned = {}
+    for blk in b.blocks:
+        for st in blk["stmts"]:
+            if st["k"] == "assign" and not st["place"]["p"]:
+                l = st["place"]["l"]
+                assigned[l] = assigned.get(l, 0) + 1
+                rv = st["rv"]
+                if rv["k"] == "use" and rv["op"].get("k") == "const" and "int" in rv["op"]:
+                    consts[l] = int(rv["op"]["int"])
+        t = blk["term"]
+        if t["k"] == "call" and t.get("dest") and not t["dest"]["p"]:
+            assigned[t["dest"]["l"]] = assigned.get(t["dest"]["l"], 0) + 1
+    consts = {l: v for l, v in consts.items() if assigned.get(l) == 1}
+    seen, todo = set(), [0]
+    succ = b.succ()
+    while todo:
+        x = todo.pop()
+        if x in seen:
+            continue
+        seen.add(x)
+        t = b.blocks[x]["term"]
+        if t["k"] == "switch":
+            d = t["discr"]
+            v = None
+            if d.get("k") == "const" and "int" in d:
+                v = int(d["int"])
+            elif d.get("k") in ("copy", "move") and not d["place"]["p"] and d["place"]["l"] in consts:
+                v = consts[d["place"]["l"]]
+            if v is not None:
+                nxt = t["otherwise"]
+                for val, tg in t["arms"]:
+                    if int(val) == v:
+                        nxt = tg
+                todo.append(nxt)
+                continue
+        todo.extend(succ[x])
+    return seen
+
+
+def guarded_unwrap(repo, b, bb):
+    """`x.unwrap()` (possibly through as_ref / as_mut) where every path to it comes over the true edge of `x.is_some()` /
+    `x.is_ok()` on the same variable, with no write to that variable in between: cannot panic"""
+    def local_behind(op, at_bb, depth=0):
+        """the user variable a by-reference operand designates: follows `tmp = &(mut) L` and `tmp = as_ref/as_mut(&L)`"""
+        if depth > 6 or op.get("k") not in ("copy", "move") or op["place"]["p"]:
+            return None
+        tmp = op["place"]["l"]
+        for bi2, blk in enumerate(b.blocks):
+            for st in blk["stmts"]:
+                if st["k"] == "assign" and st["place"] == {"l": tmp, "p": []}:
+                    rv = st["rv"]
+                    if rv["k"] in ("ref", "rawptr") and not rv["place"]["p"]:
+                        return rv["place"]["l"]
+                    if rv["k"] == "use":
+                        return local_behind(rv["op"], bi2, depth + 1)
+            t2 = blk["term"]
+            if t2["k"] == "call" and t2.get("dest") == {"l": tmp, "p": []} and (t2.get("fn") or {}).get("name") in ("as_ref", "as_mut", "as_deref") and t2["args"]:
+                return local_behind(t2["args"][0], bi2, depth + 1)
+        return tmp
+    t = b.blocks[bb]["term"]
+    if not t.get("args"):
+        return False
+    L = local_behind(t["args"][0], bb)
+    if L is None:
+        return False
+    writers = set()
+    for bi2, blk in enumerate(b.blocks):
+        for st in blk["stmts"]:
+            if st["k"] == "assign" and st["place"]["l"] == L:
+                writers.add(bi2)
+        t2 = blk["term"]
+        if t2["k"] == "call":
+            if t2.get("dest") and t2["dest"]["l"] == L:
+                writers.add(bi2)
+            nm = (t2.get("fn") or {}).get("name")
+            if nm not in ("as_ref", "as_mut", "as_deref", "is_some", "is_none", "is_ok", "is_err", "unwrap", "expect"):
+                for a0 in t2["args"]:
+                    if a0.get("k") in ("copy", "move") and not a0["place"]["p"] and b.locals[a0["place"]["l"]]["ty"].startswith("&mut") and local_behind(a0, bi2) == L:
+                        writers.add(bi2)
+    for bi in sorted(b.reachable()):
+        tg = b.blocks[bi]["term"]
+        if tg["k"] != "switch":
+            continue
+        d = tg["discr"]
+        if d.get("k") not in ("copy", "move") or d["place"]["p"]:
+            continue
+        # the discriminant local must be the result of is_some(&L) (optionally negated) computed in a dominating block
+        dl = d["place"]["l"]
+        neg = False
+        src = None
+        for _ in range(3):
+            found = False
+            for bi2, blk in enumerate(b.blocks):
+                for st in blk["stmts"]:
+                    if st["k"] == "assign" and st["place"] == {"l": dl, "p": []} and st["rv"]["k"] == "unop" and st["rv"]["op"] == "Not" and st["rv"]["a"].get("k") in ("copy", "move"):
+                        dl = st["rv"]["a"]["place"]["l"]
+                        neg = not neg
+                        found = True
+                t2 = blk["term"]
+                if t2["k"] == "call" and t2.get("dest") == {"l": dl, "p": []}:
+                    src = (bi2, t2)
+            if not found:
+                break
+        if src is None:
+            continue
+        nm = (src[1].get("fn") or {}).get("name")
+        if nm not in ("is_some", "is_ok", "is_none", "is_err") or not src[1]["args"] or local_behind(src[1]["args"][0], src[0]) != L:
+            continue
+        want = 1 if nm in ("is_some", "is_ok") else 0
+        if neg:
+            want = 1 - want
+        tgt = tg["otherwise"]
+        for val, tgx in tg["arms"]:
+            if int(val) == want:
+                tgt = tgx
+        if not (b.pred()[tgt] == [bi] and b.dominates(tgt, bb)):
+            continue
+        r1 = b.reach_from(tgt, avoid={bi})
+        if any(w in r1 and bb in b.reach_from(w, avoid={bi}) and w != bb for w in writers):
+            continue
+        return True
+    return False
+
+
+def rule_nopanic_core(prop, repo_rel, entries, cv_factory):
+    """No panic site in the arithmetic reached from the given entry points (release MIR): every bounds / overflow / division
+    assertion is discharged by interval analysis, and there is no unwrap / expect / panic! outside the conversion layer
+    (decided per abstract input by R-TOTAL) and parameterless constant initialisers."""
+    repo = repo_rel
+    F = repo.F
+    R = Rule("R-NOPANIC-CORE", "the field / curve arithmetic reachable from the entry points (monomorphic call graph, release MIR) cannot panic: every assertion terminator "
+             "(bounds, overflow, division) is discharged by interval analysis; unwrap / expect / panic! occur only in the conversion layer (R-TOTAL decides those per "
+             "abstract input) and in parameterless constant initialisers", floor=10, exhaustive=True)
+    cv = cv_factory(repo)
+    # monomorphic call graph from the entry points, following only the calls in blocks that survive folding of literal
+    # branch conditions (what debug_assert! leaves behind in an unoptimised release MIR is not live)
+    seen = set()
+    todo = []
+    for e in entries:
+        if e in F.instances:
+            todo.append(e)
+        elif e in F.bodies:
+            todo.extend(i["inst"] for i in F.inst_by_def.get(e, []))
+    fold_cache = {}
+    while todo:
+        iname = todo.pop()
+        if iname in seen:
+            continue
+        seen.add(iname)
+        irec = F.instances.get(iname)
+        if not irec or not irec.get("expanded"):
+            continue
+        bdef = F.bodies.get(irec.get("def"))
+        live_bbs = None
+        if bdef is not None:
+            if bdef.rec["path"] not in fold_cache:
+                fold_cache[bdef.rec["path"]] = folded_reachable(bdef)
+            live_bbs = fold_cache[bdef.rec["path"]]
+        for c in irec.get("calls", []):
+            if "inst" not in c:
+                continue
+            if live_bbs is not None and c.get("bb") is not None and c["bb"] not in live_bbs:
+                continue
+            todo.append(c["inst"])
+    defs = set()
+    for inst in seen:
+        i = F.instances.get(inst)
+        if i and i.get("def") in F.bodies:
+            defs.add(i["def"])
+    if len(defs) < 20:
+        R.fail_closed("%s:nopanic:reach" % prop, "call-graph reachability from the entry points found only %d local functions" % len(defs))
+    def parent_of(d):
+        q = d.split("::{closure")[0]
+        return q if q in F.bodies else d
+    # the conversion layer (what the byte machine analyses in place) is R-TOTAL's; a closure belongs to its function
+    core = sorted(d for d in defs if not cv.policy(F.bodies[parent_of(d)]) and F.bodies[d].rec["kind"] in ("Fn", "AssocFn", "Closure"))
+    asserts = []
+    calls = []
+    for d in core:
+        b = F.bodies[d]
+        for i in sorted(folded_reachable(b)):
+            t = b.blocks[i]["term"]
+            if t["k"] == "assert":
+                asserts.append(("assert", d, i, t["kind"]))
+            elif t["k"] == "call":
+                dd = (t.get("fn") or {}).get("res_def") or (t.get("fn") or {}).get("def") or ""
+                nm = (t.get("fn") or {}).get("name")
+                if dd.startswith(PANIC_DEFS) or (nm in ("unwrap", "expect", "unwrap_unchecked", "expect_err", "unwrap_err") and dd.startswith(("core::option", "core::result"))) or \
+                        (t["target"] is None and not dd.startswith("core::intrinsics")):
+                    calls.append((d, i, dd, t))
+    R.note("%d core functions reachable from %d entry points; %d assertion terminators, %d unwrap/expect/panic call sites" % (len(core), len(entries), len(asserts), len(calls)))
+    contexts, callers, deferred, nroots, own_root = analyse_asserts(F, asserts, live=defs)
+    for kind, d, bb, what in asserts:
+        R.instance()
+        b = F.bodies[d]
+        key = "%s:nopanic:%s#%s@%s" % (prop, d, what, ordinal(b, bb, what))
+        sts = list(contexts(d, bb).values())
+        if not sts:
+            R.violation(key, "fail-closed: %s assertion in %s was never reached by the abstract execution" % (what, d), loc_of(b, bb), d)
+            continue
+        fails = sum(x["fails"] for x in sts)
+        unk = sum(x["unknown"] for x in sts)
+        det = next((x["detail"] for x in sts if x["detail"]), None)
+        R.check(not fails and not unk, key, "%s assertion in %s %s (%s): a decoder input may panic inside the arithmetic" % (what, d, "fails" if fails else "is not bounded by the interval analysis", det),
+                loc_of(b, bb), d, sample={"site": loc_of(b, bb), "fn": d, "kind": what, "proved_visits": sum(x["proved"] for x in sts)} if R.discharged % 10 == 0 else None)
+    for d, bb, dd, t in calls:
+        R.instance()
+        b = F.bodies[d]
+        root = own_root(d)
+        rb = F.bodies[root]
+        nparams = len(rb.rec.get("inputs") or []) if rb.rec.get("inputs") is not None else rb.arg_count
+        is_const_init = nparams == 0
+        key = "%s:nopanic:%s→%s" % (prop, d, dd.split("<")[0].split("::")[-1] or "panic")
+        if not is_const_init and (t.get("fn") or {}).get("name") in ("unwrap", "expect") and guarded_unwrap(repo, b, bb):
+            R.ok(sample={"site": loc_of(b, bb), "fn": d, "accepted_because": "dominated by the true edge of is_some()/is_ok() on the same value"})
+            continue
+        R.check(is_const_init, key, "%s can panic (%s) and is reachable from the entry points with caller-controlled data" % (d, dd.split("<")[0]), loc_of(b, bb), d,
+                sample={"site": loc_of(b, bb), "fn": d, "accepted_because": "parameterless constant initialiser: input-independent, exercised by every use"} if is_const_init else None)
+    return R.finish()
+
+
+def rule_profile_diff(prop, ctx_repo_dev, repo_rel, ls_factory):
+    repo = ctx_repo_dev
+    F = repo.F
+    Frel = repo_rel.F
+    R = Rule("R-PROFILE-DIFF", "every assertion that exists only in the dev-profile MIR (integer-overflow checks, debug_assert!) is discharged by interval analysis, or fails for an "
+             "exhibited abstract input (violation), or is a listed numerical self-check", floor=25, exhaustive=True)
+    sites = profile_sites(F, Frel)
+    asserts = [s for s in sites if s[0] == "assert"]
+    dbg = [s for s in sites if s[0] == "debug_assert"]
+    R.note("dev-only sites: %d overflow-class assertions in %d functions, %d debug_assert! panics" % (len(asserts), len({s[1] for s in asserts}), len(dbg)))
+    contexts, callers, deferred, nroots, own_root = analyse_asserts(F, asserts)
     if deferred:
-        R.note("context-dependent helpers analysed inside their callers: %s (callers: %d)" % (sorted(deferred), len(roots)))
+        R.note("context-dependent helpers analysed inside their callers: %s (callers: %d)" % (sorted(deferred), nroots))
     lscache = {}
     for kind, p, bb, what in asserts:
         R.instance()
@@ -572,7 +819,7 @@ def bytes_discharge(repo, ls_factory, cache, b, bb, callers=None):
                 return False
             visits[0] += rec["ok"] if rec else 0
             return True
-        if F.is_public_api(q) or not callers or not callers.get(q):
+        if F.is_exported(q) or not callers or not callers.get(q):
             return False
         return all(covered(c, depth + 1, seen | {q}) for c in callers[q])
     return covered(p, 0, frozenset()) and visits[0] > 0
@@ -615,8 +862,20 @@ def run_top(F, dom, b, inline):
         for l in range(1, n + 1):
             r = ty_range(b.locals[l]["ty"])
             args.append(Rng(*r) if r else TOP)
+    # a const-generic function is analysed once per instantiated value of its parameter (from the monomorphic call graph)
+    gsets = []
+    if b.rec.get("requires_mono"):
+        for inst in F.inst_by_def.get(b.rec["path"], []):
+            gi = tuple(int(x) for x in re.findall(r"<(\d+)(?:_usize)?>", inst.get("inst") or ""))
+            if gi and gi not in gsets:
+                gsets.append(gi)
     try:
-        ex.run(b, args)
+        if gsets:
+            for gi in gsets[:6]:
+                ex.generic_ints = list(gi)
+                ex.run(b, args)
+        else:
+            ex.run(b, args)
     except FactsError as e:
         dom.notes.append("%s: %s" % (b.rec["path"], e))
 
